@@ -380,4 +380,451 @@ theorem accepts_tail (r0 virt : Sig) (c : Call α)
       · exact absurd h hn0
       · exact namedNames_sub_names h
 
+/-! ## `with_spec_attrs_for` -/
+
+def AllKwOnly (x : Sig) : Prop := ∀ p ∈ x, p.kind = .kwOnly
+
+theorem orderViolation_allKwOnly {l : Sig} (h : AllKwOnly l) {k : Kind}
+    (hk : k = .kwOnly ∨ k = .varKw) : orderViolation l k = false := by
+  unfold orderViolation
+  cases hl : l.getLast? with
+  | none => rfl
+  | some q =>
+    have hq : q.kind = .kwOnly := h q (List.mem_of_getLast? hl)
+    rcases hk with rfl | rfl <;> simp [hq, Kind.value]
+
+def kwParam (k : Name) : Param := ⟨k, .kwOnly, true⟩
+
+theorem withArgs_virtual_kwOnly (ks : List Name) :
+    ∀ (b : Builder), AllKwOnly b.virt →
+    withArgs b (ks.map kwVirtual) =
+      .ok { args := if b.virt.isEmpty && !ks.isEmpty then b.args ++ [kwargsParam] else b.args
+            virt := b.virt ++ ks.map kwParam
+            checkAttrs := b.checkAttrs } := by
+  induction ks with
+  | nil => intro b _; simp [withArgs]
+  | cons k ks ih =>
+    intro b hb
+    have hov : orderViolation b.virt Kind.kwOnly = false := orderViolation_allKwOnly hb (Or.inl rfl)
+    have hstep : withArg b (kwVirtual k) =
+        .ok { args := if b.virt.isEmpty then b.args ++ [kwargsParam] else b.args
+              virt := b.virt ++ [kwParam k]
+              checkAttrs := b.checkAttrs } := by
+      simp [withArg, kwVirtual, hov, kwargsParam, kwParam, ArgSpec.param]
+    simp only [List.map_cons, withArgs, hstep]
+    have hb1 : AllKwOnly (b.virt ++ [kwParam k]) := by
+      intro p hp
+      rcases List.mem_append.1 hp with h | h
+      · exact hb p h
+      · simp at h; subst h; rfl
+    rw [ih _ hb1]
+    simp
+
+theorem nestedKw_fresh (b : Builder) (t : Nested) :
+    (nestedKw b t).any (fun k => (currentNames b).contains k) = false := by
+  rw [List.any_eq_false]
+  intro k hk
+  simp only [nestedKw, List.mem_map, List.mem_filter] at hk
+  obtain ⟨a, ⟨_, hcond⟩, rfl⟩ := hk
+  simp only [Bool.and_eq_true, Bool.not_eq_true', List.contains_eq_mem, decide_eq_false_iff_not] at hcond
+  simpa using hcond.1.2
+
+def overflowParam (o : Name) : Param := ⟨o, .varKw, false⟩
+
+/-- closed form of `with_spec_attrs_for` on a builder without virtual arguments -/
+def nestedResult (b : Builder) (t : Nested) : Builder :=
+  { args := if (nestedKw b t).isEmpty && t.overflow.isNone then b.args
+            else b.args ++ [kwargsParam]
+    virt := (nestedKw b t).map kwParam ++ (match t.overflow with
+              | some o => [overflowParam o] | none => [])
+    checkAttrs := if t.overflow.isSome then false else b.checkAttrs }
+
+theorem withSpecAttrsFor_eq (b : Builder) (t : Nested) (hv : b.virt = []) :
+    withSpecAttrsFor b t = .ok (nestedResult b t) := by
+  unfold nestedResult
+  unfold withSpecAttrsFor
+  simp only [nestedKw_fresh, Bool.false_eq_true, if_false]
+  have hall : AllKwOnly b.virt := by rw [hv]; intro p hp; cases hp
+  have := withArgs_virtual_kwOnly (nestedKw b t) b hall
+  rw [this]
+  cases ho : t.overflow with
+  | none =>
+    simp [hv]
+  | some o =>
+    have hall1 : AllKwOnly (b.virt ++ (nestedKw b t).map kwParam) := by
+      intro p hp
+      rw [hv] at hp
+      simp only [List.nil_append, List.mem_map] at hp
+      obtain ⟨k, _, rfl⟩ := hp
+      rfl
+    have hov := orderViolation_allKwOnly hall1 (k := .varKw) (Or.inr rfl)
+    simp only [withArg, hov]
+    simp only [hv, List.nil_append, List.isEmpty_nil, Bool.true_and]
+    cases hks : nestedKw b t with
+    | nil => simp [overflowParam, ArgSpec.param, kwargsParam]
+    | cons k ks => simp [overflowParam, ArgSpec.param, kwargsParam]
+
+theorem nestedResult_virt (b : Builder) (t : Nested) :
+    (nestedResult b t).virt = (nestedKw b t).map kwParam ++ (match t.overflow with
+              | some o => [overflowParam o] | none => []) := rfl
+
+theorem nestedResult_args_cases (b : Builder) (t : Nested) :
+    ((nestedResult b t).virt = [] ∧ (nestedResult b t).args = b.args) ∨
+    ((nestedResult b t).virt ≠ [] ∧ (nestedResult b t).args = b.args ++ [kwargsParam]) := by
+  by_cases hemp : ((nestedKw b t).isEmpty && t.overflow.isNone) = true
+  · left
+    simp only [Bool.and_eq_true, List.isEmpty_iff, Option.isNone_iff_eq_none] at hemp
+    simp [nestedResult, hemp.1, hemp.2]
+  · right
+    refine ⟨?_, by simp [nestedResult, hemp]⟩
+    simp only [Bool.and_eq_true, List.isEmpty_iff, Option.isNone_iff_eq_none, not_and] at hemp
+    rw [nestedResult_virt]
+    cases hks : nestedKw b t with
+    | cons k ks => simp
+    | nil =>
+      cases ho : t.overflow with
+      | none => exact absurd ho (hemp hks)
+      | some o => simp
+
+theorem advertised_nestedResult (b : Builder) (t : Nested) :
+    advertised (nestedResult b t) = b.args ++ (nestedResult b t).virt := by
+  rcases nestedResult_args_cases b t with ⟨hv, ha⟩ | ⟨hv, ha⟩
+  · simp [advertised, hv, ha]
+  · simp [advertised, hv, ha]
+
+theorem reachable_withArgs {as : List ArgSpec} :
+    ∀ {b b' : Builder}, Reachable b → withArgs b as = .ok b' → Reachable b' := by
+  induction as with
+  | nil => intro b b' hb h; simp [withArgs] at h; subst h; exact hb
+  | cons a as ih =>
+    intro b b' hb h
+    simp only [withArgs] at h
+    cases hs : withArg b a with
+    | error e => rw [hs] at h; cases h
+    | ok b1 => rw [hs] at h; exact ih (Reachable.step a hb hs) h
+
+theorem reachable_withSpecAttrsFor {b b' : Builder} {t : Nested} (hb : Reachable b)
+    (h : withSpecAttrsFor b t = .ok b') : Reachable b' := by
+  unfold withSpecAttrsFor at h
+  simp only [nestedKw_fresh, Bool.false_eq_true, if_false] at h
+  cases h1 : withArgs b ((nestedKw b t).map kwVirtual) with
+  | error e => rw [h1] at h; cases h
+  | ok b1 =>
+    rw [h1] at h
+    have r1 := reachable_withArgs hb h1
+    cases ho : t.overflow with
+    | none => rw [ho] at h; injection h with h; subst h; exact r1
+    | some o => rw [ho] at h; exact Reachable.step _ r1 h
+
+/-! ## the forwarded keywords -/
+
+/-- the keyword part of `implementation(...)` generated from a parameter list `l` -/
+def fwdKw (s : Sig) (c : Call α) (l : Sig) : List (Name × Arg α) :=
+  l.flatMap (fun p =>
+    match p.kind with
+    | .posOrKw => [(p.name, argOf s c p)]
+    | .kwOnly => [(p.name, argOf s c p)]
+    | .varKw => (extraKw s c).map (fun kv => (kv.1, Arg.val kv.2))
+    | _ => [])
+
+theorem forwardCall_kw (b : Builder) (c : Call α) :
+    (forwardCall b c).kw = fwdKw (compiled b) c b.args := rfl
+
+theorem fwdKw_cons (s : Sig) (c : Call α) (q : Param) (qs : Sig) :
+    fwdKw s c (q :: qs) = (match q.kind with
+      | .posOrKw => [(q.name, argOf s c q)]
+      | .kwOnly => [(q.name, argOf s c q)]
+      | .varKw => (extraKw s c).map (fun kv => (kv.1, Arg.val kv.2))
+      | _ => []) ++ fwdKw s c qs := by
+  simp [fwdKw]
+
+theorem mem_fwdKw_names {s : Sig} {c : Call α} {l : Sig} {k : Name}
+    (h : k ∈ (fwdKw s c l).map (·.1)) :
+    k ∈ namedNames l ∨ (hasVarKw l = true ∧ k ∈ (extraKw s c).map (·.1)) := by
+  induction l with
+  | nil => simp [fwdKw] at h
+  | cons q qs ih =>
+    rw [fwdKw_cons, List.map_append, List.mem_append] at h
+    rcases h with h | h
+    · cases hk : q.kind <;> simp only [hk, List.map_nil, List.not_mem_nil, List.map_cons,
+        List.mem_singleton, List.map_map] at h
+      · left; subst h; exact mem_namedNames.2 ⟨q, List.mem_cons_self, by simp [hk, Kind.isNamed], rfl⟩
+      · left; subst h; exact mem_namedNames.2 ⟨q, List.mem_cons_self, by simp [hk, Kind.isNamed], rfl⟩
+      · right
+        refine ⟨by simp [hasVarKw, hk], ?_⟩
+        simpa [Function.comp_def] using h
+    · rcases ih h with h' | ⟨h1, h2⟩
+      · left
+        obtain ⟨p, hp, hn, rfl⟩ := mem_namedNames.1 h'
+        exact mem_namedNames.2 ⟨p, List.mem_cons_of_mem _ hp, hn, rfl⟩
+      · right
+        exact ⟨by simp only [hasVarKw, List.any_cons, Bool.or_eq_true]; right; exact h1, h2⟩
+
+theorem fwdKw_names_nodup (s : Sig) (c : Call α) :
+    ∀ (l : Sig), (names l).Nodup → countKind l .varKw ≤ 1 →
+      ((extraKw s c).map (·.1)).Nodup →
+      (∀ k ∈ (extraKw s c).map (·.1), k ∉ namedNames l) →
+      ((fwdKw s c l).map (·.1)).Nodup := by
+  intro l
+  induction l with
+  | nil => intros; simp [fwdKw]
+  | cons q qs ih =>
+    intro hnd hcnt hE hdis
+    have hnd' : (names qs).Nodup := by
+      simp only [names, List.map_cons, List.nodup_cons] at hnd; exact hnd.2
+    have hqn : q.name ∉ names qs := by
+      simp only [names, List.map_cons, List.nodup_cons] at hnd; exact hnd.1
+    have hdis' : ∀ k ∈ (extraKw s c).map (·.1), k ∉ namedNames qs := by
+      intro k hk hn
+      obtain ⟨p, hp, hpn, rfl⟩ := mem_namedNames.1 hn
+      exact hdis _ hk (mem_namedNames.2 ⟨p, List.mem_cons_of_mem _ hp, hpn, rfl⟩)
+    have hcnt' : countKind qs .varKw ≤ 1 := by
+      simp only [countKind, List.filter_cons] at hcnt
+      split at hcnt
+      · simp only [List.length_cons] at hcnt; simp only [countKind]; omega
+      · exact hcnt
+    rw [fwdKw_cons, List.map_append, List.nodup_append]
+    refine ⟨?_, ih hnd' hcnt' hE hdis', ?_⟩
+    · cases hk : q.kind <;> simp [Function.comp_def]
+      exact hE
+    · intro a ha b hb
+      cases hk : q.kind <;> simp only [hk, List.map_nil, List.not_mem_nil, List.map_cons,
+        List.mem_singleton, List.map_map] at ha
+      · -- posOrKw
+        subst ha
+        rcases mem_fwdKw_names hb with h | ⟨_, h⟩
+        · intro heq; exact hqn (by rw [heq]; exact namedNames_sub_names h)
+        · intro heq
+          exact hdis _ h (by rw [← heq]; exact mem_namedNames.2 ⟨q, List.mem_cons_self, by simp [hk, Kind.isNamed], rfl⟩)
+      · -- kwOnly
+        subst ha
+        rcases mem_fwdKw_names hb with h | ⟨_, h⟩
+        · intro heq; exact hqn (by rw [heq]; exact namedNames_sub_names h)
+        · intro heq
+          exact hdis _ h (by rw [← heq]; exact mem_namedNames.2 ⟨q, List.mem_cons_self, by simp [hk, Kind.isNamed], rfl⟩)
+      · -- varKw: no further `**` in the rest
+        have ha' : a ∈ (extraKw s c).map (·.1) := by simpa [Function.comp_def] using ha
+        have hzero : hasVarKw qs = false := by
+          rw [hasVarKw_false_iff]
+          intro p hp hpk
+          have : p ∈ qs.filter (·.kind == .varKw) := List.mem_filter.2 ⟨hp, by simp [hpk]⟩
+          simp only [countKind, List.filter_cons, hk, beq_self_eq_true, if_true,
+            List.length_cons] at hcnt
+          have hl : (qs.filter (·.kind == .varKw)).length = 0 := by omega
+          rw [List.length_eq_zero_iff] at hl
+          rw [hl] at this; cases this
+        rcases mem_fwdKw_names hb with h | ⟨h, _⟩
+        · intro heq; exact hdis' a ha' (by rw [heq]; exact h)
+        · rw [hzero] at h; cases h
+
+/-! ## lemmas used directly by `Props/C17.lean` -/
+
+/-- What `.build()` having succeeded gives (`buildable_good`), plus the two
+side conditions under which the acceptance theorems hold:
+* every virtual keyword-only argument carries a default (everything
+  `with_spec_attrs_for` adds does: `nested_virtual_defaults`);
+* no parameter is called like a global of the generated text (`noCapture`;
+  see `key_capture_witness` — open finding KF-C17-key-name-capture). -/
+structure Good (b : Builder) : Prop where
+  reach : Reachable b
+  advNodup : (names (advertised b)).Nodup
+  argsNodup : (names b.args).Nodup
+  oneVarKw : countKind b.args .varKw ≤ 1
+  oneVarPos : countKind b.args .varPos ≤ 1
+  virtDefaults : ∀ p ∈ b.virt, p.kind = .kwOnly → p.hasDefault = true
+  noCapture : noCapture b = true
+
+theorem wrapper_ok_eq {b : Builder} {c : Call α} {f : FCall α} (h : wrapper b c = .ok f) :
+    f = forwardCall b c := by
+  unfold wrapper at h
+  split at h
+  · cases h
+  · split at h
+    · cases h
+    · split at h
+      · cases h
+      · injection h with h; exact h.symm
+
+theorem noCapture_mem {b : Builder} (h : noCapture b = true) :
+    (names b.args).contains "validate_attrs" = false ∧
+    (names b.args).contains "implementation" = false := by
+  simp only [SpecVerif.C17.noCapture, List.all_eq_true, reservedNames] at h
+  constructor
+  · rw [Bool.eq_false_iff]; intro hc
+    have := h _ (by simpa using hc)
+    simp at this
+  · rw [Bool.eq_false_iff]; intro hc
+    have := h _ (by simpa using hc)
+    simp at this
+
+theorem wrapper_ok_iff {b : Builder} (hc : noCapture b = true) (c : Call α) :
+    (∃ f, wrapper b c = .ok f) ↔
+      (acceptsB (compiled b) c = true ∧
+        (b.virt ≠ [] → b.checkAttrs = true →
+          validateAttrs b (extraKw (compiled b) c) = true)) := by
+  obtain ⟨hva, him⟩ := noCapture_mem hc
+  unfold wrapper
+  rw [hva, him]
+  by_cases ha : acceptsB (compiled b) c = true
+  · by_cases hv : b.virt = []
+    · simp [ha, hv]
+    · by_cases hk : b.checkAttrs = true
+      · by_cases hval : validateAttrs b (extraKw (compiled b) c) = true
+        · simp [ha, hv, hk, hval]
+        · simp [ha, hv, hk, hval]
+      · simp [ha, hv, hk]
+  · simp [ha]
+
+theorem countKind_append (a b : Sig) (k : Kind) :
+    countKind (a ++ b) k = countKind a k + countKind b k := by
+  simp [countKind]
+
+theorem hasVarKw_of_count {s : Sig} (h : countKind s .varKw = 0) : hasVarKw s = false := by
+  rw [hasVarKw_false_iff]
+  intro p hp hk
+  have : p ∈ s.filter (·.kind == .varKw) := List.mem_filter.2 ⟨hp, by simp [hk]⟩
+  unfold countKind at h
+  rw [List.length_eq_zero_iff] at h
+  rw [h] at this
+  cases this
+
+theorem mem_forward_kw_named {b : Builder} (c : Call α) {p : Param} (hp : p ∈ b.args)
+    (hk : p.kind = .posOrKw ∨ p.kind = .kwOnly) :
+    (p.name, argOf (compiled b) c p) ∈ (forwardCall b c).kw := by
+  simp only [forwardCall, List.mem_flatMap]
+  refine ⟨p, hp, ?_⟩
+  rcases hk with hk | hk <;> simp [hk]
+
+theorem mem_forward_kw_extra {b : Builder} (c : Call α) (hvk : hasVarKw b.args = true)
+    {k : Name} {v : α} (hkv : (k, v) ∈ extraKw (compiled b) c) :
+    (k, Arg.val v) ∈ (forwardCall b c).kw := by
+  obtain ⟨p, hp, hpk⟩ := hasVarKw_iff.1 hvk
+  simp only [forwardCall, List.mem_flatMap]
+  refine ⟨p, hp, ?_⟩
+  simp only [hpk, List.mem_map]
+  exact ⟨(k, v), hkv, rfl⟩
+
+theorem forward_kw_mem_cases {b : Builder} (c : Call α) {k : Name} {a : Arg α}
+    (h : (k, a) ∈ (forwardCall b c).kw) :
+    (∃ p ∈ b.args, (p.kind = .posOrKw ∨ p.kind = .kwOnly) ∧ p.name = k ∧ a = argOf (compiled b) c p) ∨
+    (∃ v, (k, v) ∈ extraKw (compiled b) c ∧ a = .val v ∧ hasVarKw b.args = true) := by
+  simp only [forwardCall, List.mem_flatMap] at h
+  obtain ⟨p, hp, hm⟩ := h
+  cases hk : p.kind with
+  | posOnly => simp [hk] at hm
+  | varPos => simp [hk] at hm
+  | posOrKw =>
+    simp only [hk, List.mem_singleton, Prod.mk.injEq] at hm
+    exact Or.inl ⟨p, hp, Or.inl hk, hm.1.symm, hm.2⟩
+  | kwOnly =>
+    simp only [hk, List.mem_singleton, Prod.mk.injEq] at hm
+    exact Or.inl ⟨p, hp, Or.inr hk, hm.1.symm, hm.2⟩
+  | varKw =>
+    simp only [hk, List.mem_map, Prod.mk.injEq] at hm
+    obtain ⟨kv, hkv, h1, h2⟩ := hm
+    refine Or.inr ⟨kv.2, ?_, h2.symm, hasVarKw_iff.2 ⟨p, hp, hk⟩⟩
+    rw [← h1]; exact hkv
+
+theorem kwGet_mem {kw : List (Name × α)} {k : Name} {v : α} (h : kwGet kw k = some v) :
+    (k, v) ∈ kw := by
+  unfold kwGet at h
+  cases hf : kw.find? (fun p => p.1 == k) with
+  | none => simp [hf] at h
+  | some q =>
+    simp [hf] at h
+    have hq := List.find?_some hf
+    have hm := List.mem_of_find?_eq_some hf
+    simp at hq
+    subst h
+    rw [← hq]; exact hm
+
+theorem kwGet_none {kw : List (Name × α)} {k : Name} (h : kwGet kw k = none) :
+    k ∉ kw.map (·.1) := by
+  unfold kwGet at h
+  simp only [Option.map_eq_none_iff, List.find?_eq_none] at h
+  intro hm
+  obtain ⟨q, hq, rfl⟩ := List.mem_map.1 hm
+  exact h q hq (by simp)
+
+/-- side conditions on a generated method's configuration: the parameter names
+the recipe uses (`self`, the control parameters, the key attribute) are distinct
+and none is a global of the generated text; the nested class has distinct
+attribute names and its overflow attribute is not one of those parameters. -/
+def cfgOK (m : MethodCfg) : Bool :=
+  let own := "self" :: (recipe m).map (·.name)
+  nodupB own && own.all (fun n => !reservedNames.contains n) && !own.contains "kwargs" &&
+  (match m.nested with
+   | none => true
+   | some t => nodupB (t.attrs.map (·.name)) &&
+      (match t.overflow with | some o => !own.contains o | none => true))
+
+theorem recipe_real (m : MethodCfg) :
+    ∀ a ∈ recipe m, (a.kind = .posOrKw ∨ a.kind = .kwOnly) ∧ a.virtual = false := by
+  obtain ⟨kind, key, nested⟩ := m
+  cases kind <;> (try cases key) <;> simp [recipe, pk, ko, tail2]
+
+theorem withArgs_recipe (m : MethodCfg) :
+    withArgs Builder.init (recipe m) =
+      .ok ⟨Builder.init.args ++ (recipe m).map ArgSpec.param, [], true⟩ := by
+  obtain ⟨kind, key, nested⟩ := m
+  cases kind <;> (try cases key) <;>
+    simp [recipe, pk, ko, tail2, withArgs, withArg, orderViolation, Builder.init, ArgSpec.param, Kind.value]
+
+/-- the builder after the non-virtual `with_arg` calls of a `build_method` -/
+def base (m : MethodCfg) : Builder :=
+  ⟨Builder.init.args ++ (recipe m).map ArgSpec.param, [], true⟩
+
+def own (m : MethodCfg) : List Name := "self" :: (recipe m).map (·.name)
+
+theorem names_base (m : MethodCfg) : names (base m).args = own m := by
+  simp [base, own, names, Builder.init, ArgSpec.param, Function.comp_def]
+
+theorem base_kinds (m : MethodCfg) : ∀ p ∈ (base m).args, p.kind = .posOrKw ∨ p.kind = .kwOnly := by
+  intro p hp
+  simp only [base, Builder.init, List.cons_append, List.nil_append, List.mem_cons, List.mem_map] at hp
+  rcases hp with rfl | ⟨a, ha, rfl⟩
+  · left; rfl
+  · exact (recipe_real m a ha).1
+
+theorem countKind_zero {s : Sig} {k : Kind} (h : ∀ p ∈ s, p.kind ≠ k) : countKind s k = 0 := by
+  unfold countKind
+  rw [List.length_eq_zero_iff, List.filter_eq_nil_iff]
+  intro p hp
+  simpa using h p hp
+
+theorem cfgOK_parts {m : MethodCfg} (h : cfgOK m = true) :
+    (own m).Nodup ∧ (∀ n ∈ own m, reservedNames.contains n = false) ∧ "kwargs" ∉ own m ∧
+    (∀ t, m.nested = some t → (t.attrs.map (·.name)).Nodup ∧ ∀ o, t.overflow = some o → o ∉ own m) := by
+  unfold cfgOK at h
+  simp only [Bool.and_eq_true, List.all_eq_true, Bool.not_eq_true'] at h
+  obtain ⟨⟨⟨h1, h2⟩, hkw⟩, h3⟩ := h
+  refine ⟨(nodupB_iff _).1 h1, h2, by simpa [own] using hkw, ?_⟩
+  intro t ht
+  rw [ht] at h3
+  simp only [Bool.and_eq_true] at h3
+  refine ⟨(nodupB_iff _).1 h3.1, ?_⟩
+  intro o ho
+  have := h3.2
+  rw [ho] at this
+  simpa [own] using this
+
+theorem noCapture_of_names {b : Builder} (h : ∀ n ∈ names b.args, reservedNames.contains n = false) :
+    noCapture b = true := by
+  simp only [SpecVerif.C17.noCapture, List.all_eq_true, Bool.not_eq_true']
+  exact h
+
+theorem good_base (m : MethodCfg) (hm : cfgOK m = true) : Good (base m) := by
+  obtain ⟨hnd, hres, _, _⟩ := cfgOK_parts hm
+  have hk := base_kinds m
+  refine ⟨reachable_withArgs Reachable.init (withArgs_recipe m), ?_, ?_, ?_, ?_, ?_, ?_⟩
+  · have : advertised (base m) = (base m).args := by simp [advertised, base]
+    rw [this, names_base]; exact hnd
+  · rw [names_base]; exact hnd
+  · rw [countKind_zero]; exact Nat.zero_le _
+    intro p hp; rcases hk p hp with h | h <;> simp [h]
+  · rw [countKind_zero]; exact Nat.zero_le _
+    intro p hp; rcases hk p hp with h | h <;> simp [h]
+  · intro p hp; simp [base] at hp
+  · apply noCapture_of_names; rw [names_base]; exact hres
+
 end SpecVerif.C17
